@@ -25,34 +25,34 @@ TF = "service::timeout::future::TimeoutFuture"
 
 
 def C19_1(ctx, facts):
-    call = facts.method("service::timeout::Timeout", "Service", "call")
+    call = facts.unit(facts.method("service::timeout::Timeout", "Service", "call"))
     ctx.touched(call)
-    news = call.calls(TF + "::new")
-    ctx.floor("Timeout::call|TimeoutFuture::new", len(news), 1, "TimeoutFuture::new")
-    for c in news:
-        r0 = call.roots(c.args[0], through_calls=False)
-        ctx.check(any(r.kind == "call" and norm(r.site.decl or r.site.name).endswith("Service::call") for r in r0), "Timeout::call|wraps-inner-call", "the future wraps self.inner.call(req) directly",
-                  "inner future roots %s" % sorted(map(repr, r0)), c.where())
-        r2 = call.roots(c.args[2])
-        ctx.check(any(r.kind == "arg" and r.desc == "self.timeout" for r in r2), "Timeout::call|duration", "the duration is the layer's", "duration roots %s" % sorted(map(repr, sig(r2))), c.where())
-        r1 = call.roots(c.args[1])
-        ctx.check(any(r.kind == "arg" and r.desc.startswith("self.error") for r in r1), "Timeout::call|error-fn", "the error constructor is the layer's", "error roots %s" % sorted(map(repr, sig(r1))), c.where())
-    new = facts.fn(TF + "::new")
-    ctx.touched(new)
-    for (b, i, s) in new.aggregates(TF):
+    # evaluated on the unit of Timeout::call (TimeoutFuture::new and any other private helper spliced in): what matters is
+    # that issuing the request builds the TimeoutFuture with a timer that is already running
+    aggs = call.aggregates(TF)
+    ctx.floor("Timeout::call|TimeoutFuture", len(aggs), 1, "construction of the TimeoutFuture when the request is issued")
+    for (b, i, s) in aggs:
         r = s["r"]
         ops = dict(zip(r["fields"], r["ops"]))
-        rt = new.roots(ops["timeout"])
-        ok = any(x.kind == "call" and x.site.is_("tokio::time::sleep", "tokio::time::sleep::sleep") for x in rt) and any(x.kind == "arg" and x.desc == "timeout" for x in rt)
-        ctx.check(ok, "TimeoutFuture::new|timer-created", "the timer is tokio::time::sleep(timeout), created when the request is issued", "timer roots %s" % sorted(map(repr, sig(rt))), new.where(b))
-        ctx.check(any(x.kind == "arg" and x.desc == "inner" for x in new.roots(ops["inner"])), "TimeoutFuture::new|inner", "inner is the given future", "inner differs", new.where(b))
+        r0 = call.roots(ops["inner"], through_calls=False)
+        ctx.check(any(x.kind == "call" and norm(x.site.decl or x.site.name).endswith("Service::call") for x in r0), "Timeout::call|wraps-inner-call", "the future wraps self.inner.call(req) directly",
+                  "inner future roots %s" % sorted(map(repr, r0)), call.where(b))
+        rt = call.roots(ops["timeout"])
+        sl_ = [x for x in rt if x.kind == "call" and x.site.is_("tokio::time::sleep", "tokio::time::sleep::sleep")]
+        ctx.check(bool(sl_), "TimeoutFuture::new|timer-created", "the timer is tokio::time::sleep(..), created when the request is issued", "timer roots %s" % sorted(map(repr, sig(rt))), call.where(b))
+        for x in sl_:
+            r2 = call.roots(x.site.args[0])
+            ctx.check(any(y.kind == "arg" and y.desc == "self.timeout" for y in r2), "Timeout::call|duration", "the duration is the layer's", "duration roots %s" % sorted(map(repr, sig(r2))), x.site.where())
+        r1 = call.roots(ops["error"]) if "error" in ops else set()
+        ctx.check(any(x.kind == "arg" and x.desc.startswith("self.error") for x in r1), "Timeout::call|error-fn", "the error constructor is the layer's", "error roots %s" % sorted(map(repr, sig(r1))), call.where(b))
     poll = facts.method(TF, "Future", "poll")
     sl = [c for c in poll.calls() if c.matches(r"tokio::time::(sleep|sleep_until|timeout)")]
     ctx.check(not sl, "TimeoutFuture::poll|no-timer-creation", "no timer is created while polling (the deadline is fixed at issue time)", "a timer is created inside poll: the deadline moves with every poll", sl[0].where() if sl else None)
     resets = [c for c in poll.calls() if c.matches(r"Sleep.*::reset$")]
     ctx.check(not resets, "TimeoutFuture::poll|no-reset", "the timer is never reset", "the timer is reset in poll")
     sleeps = [c.fn.nkey for c in facts.call_sites_of("tokio::time::sleep", "tokio::time::sleep::sleep") if c.fn.nkey.startswith("service::timeout")]
-    ctx.check(sleeps == [norm(TF + "::new")] or sleeps == [new.nkey], "service::timeout|sleep-sites", "the only sleep in the timeout module is in TimeoutFuture::new", "sleep created in %s" % sleeps)
+    home = {call.nkey} | {norm(k) for k in call.inlined}
+    ctx.check(bool(sleeps) and all(x in home for x in sleeps), "service::timeout|sleep-sites", "the only sleep of the timeout module is created on the Timeout::call path (%s)" % sleeps, "sleep created in %s" % sleeps)
 
 
 def C19_2(ctx, facts):
@@ -110,7 +110,7 @@ def C19_3_4(ctx, facts):
         sp = [c for c in g.calls() if c.matches(r"tokio::(task::)?spawn|JoinSet|spawn_blocking|spawn_local")]
         ctx.check(not sp, "%s|no-spawn" % key[0].split("::")[-1], "nothing is spawned: the inner work cannot outlive the timeout future", "inner work is spawned and survives expiry", sp[0].where() if sp else None)
     # placement: reuse C13.1's reading of the builder type
-    f = facts.fn("client::builder::Builder::build_service")
+    f = facts.unit(facts.fn("client::builder::Builder::build_service"))
     svc = [c for c in f.calls() if norm(c.name).endswith("ServiceBuilder::service")]
     for c in svc:
         stack = layer_stack((c.t.get("argtys") or [""])[0])
